@@ -512,6 +512,15 @@ def App.deliverTx (a : App) (tx : Tx) : Option (App × TxOut) :=
     else none
   | none => none
 
+/-- a block's transactions delivered in order (stops at the first one that cannot be
+delivered because no block is open) -/
+def App.deliverAll (a : App) : List Tx → App × List TxOut
+  | [] => (a, [])
+  | tx :: rest =>
+    match a.deliverTx tx with
+    | some (a', o) => ((a'.deliverAll rest).1, o :: (a'.deliverAll rest).2)
+    | none => (a, [])
+
 /-- CheckTx: runs on checkState; the block meter is never consulted -/
 def App.checkTx (a : App) (tx : Tx) : App × TxOut :=
   let o := runTx .check tx a.check (.infinite 0) a.checkMeter a.vm
